@@ -207,6 +207,21 @@ pub async fn run_case(c: Case) -> Result<CaseInfo, Failure> {
     // streamed payload is owed and is refused then, like any other packet inside a payload; that is C08's subject:
     // histories with both a stream and a QoS 2 send are not judged by this rule)
     let pubrel_during_stream = !w.streams.is_empty() && w.slots.iter().any(|s| s.kind == SendKind::Qos2);
+    // the peer's window has been open since the final phase began and everything written has been taken off the transport:
+    // a library that still reports write back-pressure (no "disabled" notification after the last "enabled") keeps its
+    // senders parked for good
+    if backpressure && !stuck.is_empty() && !w.stalled {
+        return Err(Failure::new(
+            "sender-stuck",
+            format!("C13/{}/sender-stuck/back-pressure-never-lifted", c.role.name()),
+            format!(
+                "at quiescence the transport is drained and the peer reads, yet the last back-pressure notification says enabled and {} future(s) are still parked; notifications {:?}; futures {:?}",
+                stuck.len(),
+                w.eut.app().log.borrow().iter().filter_map(|e| if let Ev::WrBackpressure(b) = e { Some(*b) } else { None }).collect::<Vec<_>>(),
+                w.results_summary()
+            ),
+        ));
+    }
     // the peer has acknowledged every packet it received and every receipt has been released: nothing further can
     // free a slot, so a sender still parked now is parked for good - whatever the window looks like (a slot held by an
     // exchange whose send future was cancelled must not be lost)
